@@ -199,7 +199,7 @@ func c14Sig(kind string, e c14Entry) string {
 
 func TestVerifC14Registrations(t *testing.T) {
 	L := ev.Begin("C14", "c14-registrations", "exploration",
-		"catalog entries: name {svc, svc-1, 'sv c'} x address {v4, v6, empty->node address} x port {0,80,65535} x urlprefix part {/x, foo.com/x, FOO.com/, :1234, foo.com (no slash), ${DC}.foo.com/, /[} x every <=2-subset of 18 option strings (strip, proto=https/tcp/grpc, weight=0.2/abc/Inf/empty/-1, redirect with and without url, host=dst, allow, a=\"b\", tlsskipverify, bare flag) x extra tags {none, v1, two tags, quoted, backslash, non-ASCII, spaced, newline}; each next to a second well-formed service. The generated commands go through route.NewTable as makeConfig would emit them. oracle: (a) the whole text is accepted and the well-formed neighbour is present; (b) an expressible entry yields the target that denotes it (service, host/path, destination, weight, tags, opts), an inexpressible one is absent. non-trivial = entry with options or extra tags")
+		"catalog entries: name {svc, svc-1, 'sv c'} x address {v4, v6, empty->node address} x port {0,80,65535} x urlprefix part {/x, foo.com/x, FOO.com/, :1234, foo.com (no slash), ${DC}.foo.com/, /[} x every <=2-subset of 18 option strings (strip, proto=https/tcp/grpc, weight=0.2/abc/Inf/empty/-1, redirect with and without url, host=dst, allow, a=\"b\", tlsskipverify, bare flag) x extra tags {none, v1, two tags, quoted, backslash, non-ASCII, spaced, newline, quote+newline+a second command}; each next to a second well-formed service. The generated commands go through route.NewTable as makeConfig would emit them. oracle: (a) the whole text is accepted and the well-formed neighbour is present; (b) an expressible entry yields the target that denotes it (service, host/path, destination, weight, tags, opts), an inexpressible one is absent. non-trivial = entry with options or extra tags")
 	names := []string{"svc", "svc-1", "sv c"}
 	addrs := []string{"10.1.2.3", "2001:db8::7", ""}
 	ports := []int{0, 80, 65535}
@@ -216,7 +216,7 @@ func TestVerifC14Registrations(t *testing.T) {
 			optSets = append(optSets, []string{optPool[i], optPool[j]})
 		}
 	}
-	extras := [][]string{nil, {"v1"}, {"a", "b"}, {"say \"hi\""}, {"back\\slash"}, {"ünï"}, {" spaced "}, {"line\nbreak"}, {"v1", "say \"hi\""}}
+	extras := [][]string{nil, {"v1"}, {"a", "b"}, {"say \"hi\""}, {"back\\slash"}, {"ünï"}, {" spaced "}, {"line\nbreak"}, {"v1", "say \"hi\""}, {"x\"\nroute del good tags \"y"}, {"x\"\nroute add evil / http://6.6.6.6:66/ tags \"y"}}
 	var entries []c14Entry
 	for _, n := range names {
 		for ai, a := range addrs {
